@@ -214,6 +214,34 @@ func ifaceKey(recv types.Type, method string) string {
 
 // contractFor finds the contract that applies to a call.
 func (e *fnEnc) contractFor(c *ssa.CallCommon) *FuncContract {
+	fc := e.contractFor0(c)
+	if len(e.V.AssumeFrames) == 0 || (fc != nil && fc.ModSet) {
+		return fc
+	}
+	// per-property environment assumption: the named callees do not write memory that existed
+	// before the call (decoders, validators of other properties); reported in the evidence
+	key := e.calleeKey(c)
+	for _, pat := range e.V.AssumeFrames {
+		if strings.Contains(key, pat) {
+			if cached, ok := e.V.frameContracts[key]; ok {
+				return cached
+			}
+			var nc FuncContract
+			if fc != nil {
+				nc = *fc
+			} else {
+				nc = FuncContract{Key: key}
+			}
+			nc.ModSet, nc.ModNone = true, true
+			e.V.frameContracts[key] = &nc
+			e.V.FrameAssumed[key] = true
+			return &nc
+		}
+	}
+	return fc
+}
+
+func (e *fnEnc) contractFor0(c *ssa.CallCommon) *FuncContract {
 	if c.IsInvoke() {
 		return e.V.C.Ifaces[e.calleeKey(c)]
 	}
@@ -222,7 +250,8 @@ func (e *fnEnc) contractFor(c *ssa.CallCommon) *FuncContract {
 		if k := fieldCallKey(c.Value); k != "" {
 			return e.V.C.Funcs[k]
 		}
-		return nil
+		// a call through a value of a named function type (context.CancelFunc): "dynamic:<type>"
+		return e.V.C.Funcs["dynamic:"+c.Value.Type().String()]
 	}
 	if fc := e.V.C.Funcs[funcKey(f)]; fc != nil {
 		return fc
@@ -340,6 +369,8 @@ func (e *fnEnc) call(st *state, at ssa.Value, c *ssa.CallCommon, instr ssa.Instr
 	fc.Used = true
 	if fc.Extern {
 		e.V.ExternU[key] = true
+	} else if e.V.ContractUsed != nil {
+		e.V.ContractUsed[key] = true
 	}
 	// callee environment: parameter names -> argument terms
 	pre := st.clone()
